@@ -157,29 +157,31 @@ func startWorkers(id string, unit int, n int) ([]*workerProc, int, float64, erro
 // ---------------------------------------------------------------- one run
 
 type runStats struct {
-	Name         string            `json:"name"`
-	Entry        string            `json:"entry"`
-	Params       map[string]string `json:"params,omitempty"`
-	Bound        string            `json:"bound,omitempty"`
-	Paths        int               `json:"paths"`
-	Decisions    int               `json:"decisions"`
-	NewBranches  int               `json:"new_branches"`
-	Obligations  int               `json:"obligations"`
-	Discharged   int               `json:"discharged"`
-	Pruned       int               `json:"pruned_by_assume"`
-	Queries      int               `json:"queries"`
-	QSat         int               `json:"q_sat"`
-	QUnsat       int               `json:"q_unsat"`
-	QUnknown     int               `json:"q_unknown"`
-	SolverS      float64           `json:"solver_s"`
-	WallS        float64           `json:"wall_s"`
-	Instrs       int64             `json:"instructions"`
-	MaxPathInstr int64             `json:"max_path_instructions"`
-	Exhaustive   bool              `json:"exhaustive"`
-	Inconclusive map[string]int    `json:"inconclusive,omitempty"`
-	Reached      map[string]int    `json:"reached,omitempty"`
-	Violations   int               `json:"violations_raw"`
-	Twin         bool              `json:"twin,omitempty"`
+	Name          string            `json:"name"`
+	Entry         string            `json:"entry"`
+	Params        map[string]string `json:"params,omitempty"`
+	Bound         string            `json:"bound,omitempty"`
+	Paths         int               `json:"paths"`
+	Decisions     int               `json:"decisions"`
+	NewBranches   int               `json:"new_branches"`
+	DomainDecided int               `json:"branches_decided_by_byte_domains"`
+	GuardChecks   int               `json:"path_feasibility_guard_checks"`
+	Obligations   int               `json:"obligations"`
+	Discharged    int               `json:"discharged"`
+	Pruned        int               `json:"pruned_by_assume"`
+	Queries       int               `json:"queries"`
+	QSat          int               `json:"q_sat"`
+	QUnsat        int               `json:"q_unsat"`
+	QUnknown      int               `json:"q_unknown"`
+	SolverS       float64           `json:"solver_s"`
+	WallS         float64           `json:"wall_s"`
+	Instrs        int64             `json:"instructions"`
+	MaxPathInstr  int64             `json:"max_path_instructions"`
+	Exhaustive    bool              `json:"exhaustive"`
+	Inconclusive  map[string]int    `json:"inconclusive,omitempty"`
+	Reached       map[string]int    `json:"reached,omitempty"`
+	Violations    int               `json:"violations_raw"`
+	Twin          bool              `json:"twin,omitempty"`
 
 	violations []interp.Violation
 	traces     []interp.Trace
@@ -192,6 +194,8 @@ func (rs *runStats) merge(b *interp.BatchResult) {
 	rs.Paths += b.Paths
 	rs.Decisions += b.Decisions
 	rs.NewBranches += b.NewBranches
+	rs.DomainDecided += b.DomainDecided
+	rs.GuardChecks += b.GuardChecks
 	rs.Obligations += b.Obligations
 	rs.Discharged += b.Discharged
 	rs.Pruned += b.Pruned
